@@ -227,6 +227,32 @@ def run(ctx):
             except _NE17 as e:
                 ctx.bad(R_arr, "%s|array-branch-not-evaluable" % norm(f.path).split("::")[-1], "%s:%d" % (f.file, n_.get("ln") or 0), "array branch condition not evaluable: %s" % e, "shape changed")
 
+    # the record size the header announces (and every strided access path uses) is the number of bytes write_record emits: the plain
+    # sum of the field sizes — no rounding, alignment or minimum applied on top
+    R_rsz = ctx.rule("C17.record-size-is-the-plain-sum-of-field-sizes", "Schema::record_size returns fields.iter().map(size).sum() with no further arithmetic or method applied to the sum", floor=1)
+    rsf = next((f for f in c.fn_list if f.hir and f.kind != "Closure" and norm(f.path).endswith("schema::Schema::record_size")), None)
+    if rsf is None:
+        ctx.bad(R_rsz, "Schema::record_size|missing", "-", "function not found", "anchor gone")
+    else:
+        ctx.saw_fn(rsf)
+        tails = [hirq.strip(t_) for t_ in hirq.tails(rsf.hir["body"])] if hasattr(hirq, "tails") else [hirq.strip(rsf.hir["body"])]
+        probs = []
+        for t_ in tails:
+            vals = [t_] + [hirq.strip(v_) for v_ in hirq.value_leaves(rsf.hir["body"], t_) if v_ is not None]
+            is_sum = lambda e: e.get("k") == "mcall" and e["m"] in ("sum", "fold") and "fields" in hirq.render(e["recv"]) and "size" in hirq.render(e["recv"])
+            if not any(is_sum(v_) for v_ in vals):
+                probs.append("`%s` is not the sum of the field sizes" % hirq.render(t_)[:50])
+            for v_ in vals:
+                if v_.get("k") == "mcall" and not is_sum(v_) and v_["m"] not in ("into", "try_into", "unwrap", "clone"):
+                    probs.append("`.%s(..)` is applied to the sum" % v_["m"])
+                if v_.get("k") == "bin":
+                    probs.append("`%s` is applied to the sum" % hirq.render(v_)[:40])
+        if probs:
+            ctx.bad(R_rsz, "Schema::record_size|adjusted", rsf.where, "; ".join(sorted(set(probs))[:3]),
+                    "the header (and every lazy / mmap / parallel stride) announces larger records than write_record packs: eager read-back runs into the string block, the other paths return shifted records, and correctly packed files of other tools are rejected")
+        else:
+            ctx.ok(R_rsz, {"fn": "Schema::record_size", "value": "sum of field sizes"})
+
     # Schema::validate accepts a key index exactly when it names a field: index < fields.len()
     R_key = ctx.rule("C17.key-index-bound-is-the-field-count", "Schema::validate rejects key index i for a schema of n fields iff i >= n (n in 1..=5, i in 0..=6)", floor=1)
     sv = next((f for f in c.fn_list if f.hir and f.kind != "Closure" and norm(f.path).endswith("schema::Schema::validate")), None)
